@@ -5,8 +5,12 @@ Proof   : lean/PsV/Props/C18.lean — theorems about the wrapper table and life-
           C18_no_exception_escapes, C18_wrapper_faithful (+ status/pointer/value corollaries), C18_null_guard_fails,
           C18_handles_balanced / C18_ledger_tracks_handles (unbounded induction over op sequences).
 Tie     : harness/c18_harness.cpp runs random op sequences (<= 30 ops, 1..3 handles) through the C API and, call by
-          call, through the C++ API on a twin object; `psvdriver C18` predicts the C return class of every call from
-          the twin's outcome (wrapRet on the generated table) and the handle/ledger state (step on the generated facts).
+          call, through the C++ API on a twin object; `psvdriver C18` runs the C machine of C18_refines (cstep: wrapRet /
+          guardRet / oomRet on the generated table, pointers and ledger on the generated facts) with the twin's outcome
+          and object digest as the semantics of the C++ operation, and predicts the C return class, the object behind the
+          handle (digest), the ledger, and whether the wrapper can request heap storage at all.  The harness replaces
+          operator new: it counts the requests of every call (C side and twin) and makes the k-th one throw
+          std::bad_alloc on request (`A:<k>`).
 Oracle  : (independent of the model) return != 0 / NULL  <=>  the C++ call threw / returned false / could not be made;
           values and object digests bit-identical; once the script has released every handle and result (the harness
           counts what is still held) the C side retains no heap at all (ASan allocator statistics; a retention that the
@@ -37,6 +41,8 @@ MAXSLOT = 4
 # ops whose wrapper (or the C++ operation behind it) requests heap storage through operator new: candidates for an
 # injected std::bad_alloc (`A:<k>`: the k-th request inside the call throws, on the C side and on the twin's side)
 INJECTABLE = {"init", "readfile", "readmem", "writefile", "writemem", "readkey", "writekey", "glamfit", "grideval", "permute", "convolve", "grad"}
+# wrappers whose first heap request (if they make one) is their own, not the C++ operation's
+OWN_FIRST_REQUEST = {"readfile", "writefile", "glamfit", "grideval", "permute"}
 INJECT_AT = [0, 0, 0, 1, 1, 2, 2, 3, 4, 5, 7, 10, 14, 20, 27, 40, 90, 250]
 
 
@@ -111,7 +117,8 @@ class SeqGen:
                 line += " A:%d" % r.choice(INJECT_AT)
                 self.stats["injected_calls"] = self.stats.get("injected_calls", 0) + 1
                 if words[0] == "grideval": slots[int(words[2])] = True
-                st[h] = "unknown"; info[h] = {}
+                if words[0] not in ("grad", "readkey", "writefile", "writemem", "grideval"):   # (these cannot change the object)
+                    st[h] = "unknown"; info[h] = {}
                 ops.append(line)
                 continue
             self.apply(words, h, st, info, slots)
@@ -287,7 +294,11 @@ def driver_lines(seq, res):
                 tok = nulls[0]
                 nullparam = "buffer->data" if tok == "occupied" or (tok == "data" and kind == "readmem") else inv.get(tok, tok)
             else: nullparam = "table->data"
-        lines.append("OP %s %s %d %d %d %s %s" % (kind, wname, h, slot, sel, nullparam, r["ts"]))
+        outcome = "allocfail" if (kind == "readmem" and r["ts"] == "throw" and "noobj" in r["tv"].split()) else r["ts"]
+        # the injected failure hit the very first request of the call, and that request is the wrapper's own (a temporary
+        # string, a helper container, the object itself): the C++ operation was never reached
+        oom = 1 if (r["aC"][1] == 1 and r["aC"][0] == 0 and kind in OWN_FIRST_REQUEST and r["ts"] == "throw") else 0
+        lines.append("OP %s %s %d %d %d %s %s %s %d" % (kind, wname, h, slot, sel, nullparam, outcome, r["tdg"] or "-", oom))
         idx.append(i)
     lines.append("END")
     return lines, idx
@@ -326,12 +337,21 @@ def judge(seq, res, pred, pidx, pend):
         # ---- model prediction
         p = pmap.get(i)
         if p is None: tie.append("no model line for op %d (%s)" % (i, o)); continue
-        m = re.match(r"P (\S+) valid=(\d) h=(\S+)", p)
+        m = re.match(r"P (\S+) valid=(\d) h=(\S+) af=(\d)", p)
         if not m: tie.append("driver: %s" % p); continue
         if m.group(1) != cs: tie.append("model predicts %s for %s (twin %s), C returned %s" % (m.group(1), wname, ts, cs))
-        if m.group(2) != "1": tie.append("model: op %d (%s) violates the usage rule" % (i, o))
-        if w[0] != "nddestroy" and (m.group(3) == "null") != (r["cdg"] == "null"):
-            tie.append("model handle state %s but C handle digest %s after %s" % (m.group(3), r["cdg"], o))
+        if m.group(2) != "1": tie.append("model: op %d (%s) is outside the defined scope (cDefined)" % (i, o))
+        if w[0] != "nddestroy" and m.group(3) != r["cdg"]:
+            tie.append("model: object behind the handle %s, C handle digest %s after %s" % (m.group(3), r["cdg"], o))
+        # ---- heap requests (operator new) inside the call
+        aC, aT = r["aC"], r["aT"]
+        if m.group(4) == "1" and (aC[0] or aT[0] or aC[1] or aT[1]):
+            tie.append("the model classifies every call of %s as unable to throw (no heap request), but the C call made %d request(s), the C++ call %d" % (wname, aC[0] + aC[1], aT[0] + aT[1]))
+        if aC[1] != aT[1]:
+            tie.append("injected allocation failure (%s) fired in %s only: the twin's heap requests are not the wrapper's" % (o, "the C call" if aC[1] else "the C++ call"))
+        elif aC != aT and ts != "inv" and cs in (OKC if ts == "ok" else FAILC | {"void"}):
+            core.append({"alloc_sequences_differ": wname})
+        if aC[1]: core.append({"bad_alloc": wname})
     e = res.get("end")
     if e:
         # what the model's ledger holds when the script ends  vs  what the harness still finds in the C handles / result slots
@@ -472,7 +492,12 @@ def report_all(ctx, exe, seqs, verdicts, aborts, results, stats):
         for t in tie:
             ctx.tie_ok = False
             if len(ctx.broken) < 6: ctx.broken.append({"kind": "model/implementation correspondence", "sequence": by_id[sid], "detail": t})
-        for c in core: stats["core_leak_sequences"] = stats.get("core_leak_sequences", 0) + 1
+        for c in core:
+            if "bytes" in c: stats["core_leak_sequences"] = stats.get("core_leak_sequences", 0) + 1
+            elif "bad_alloc" in c:
+                d = stats.setdefault("bad_alloc_injected_and_fired", {}); d[c["bad_alloc"]] = d.get(c["bad_alloc"], 0) + 1
+            else:
+                d = stats.setdefault("alloc_sequences_differ", {}); d[c["alloc_sequences_differ"]] = d.get(c["alloc_sequences_differ"], 0) + 1
 
 
 def run(ctx, only=None):
@@ -522,6 +547,12 @@ def run(ctx, only=None):
     ctx.coverage["rule"] = ("op sequences drawn from VERIF_SEED by bin/props/C18.py (<= 30 ops, 1..3 handles, clean-up appended), executed by harness/c18_harness.cpp; "
                             "a call is non-trivial when the C++ operation failed/threw/was impossible or produced a value; distinct = distinct (wrapper, twin outcome, value, object digest)")
     ctx.coverage["input_distribution"] = {"sequences": len(seqs), "modes": modes, "calls_per_wrapper": kinds, "twin_outcomes": outcomes, **stats}
+    fired = stats.get("bad_alloc_injected_and_fired", {})
+    ctx.coverage["bad_alloc"] = {"calls_with_an_injected_request_index": stats.get("injected_calls", 0) * len(modes),
+                                 "calls_in_which_it_fired_per_wrapper": fired,
+                                 "rule": "`A:<k>`: the k-th operator-new request inside the C call throws std::bad_alloc, and the k-th request inside the twin's C++ call as well"}
+    if only is None and sum(fired.values()) < (15 if ctx.tier == "quick" else 300):
+        ctx.tie_ok = False; ctx.broken.append({"kind": "allocation-failure injection ineffective", "fired": fired})
     missing = sorted(set(side["wrappers"]) - set(kinds))
     ctx.coverage["wrappers_never_called"] = missing
     if missing and only is None:
@@ -531,7 +562,8 @@ def run(ctx, only=None):
         "behaviour classes of the C++ operations (canThrow / canFail in Model/CApi.lean) are read from the headers; the twin observes the actual outcome on every call",
         "operations whose C++ implementation has no defined behaviour on an object without data (evaluation, grid evaluation, the per-dimension getters) are only called on loaded tables; a crash that the C++ twin would reproduce identically through the C++ API belongs to C20/C07, not to the wrapper (a *leak* that the twin reproduces is reported: signature leak:c++-object)",
         "corrupt inputs are limited to non-FITS bytes, an empty file, a truncation inside the primary header and a truncation after the coefficient HDU (the reader fails after it has built part of the object); arbitrary corruption is C07",
-        "allocation failure (std::bad_alloc) is covered by the theorem (catch-all handler present), not by the differential run",
+        "allocation failure: std::bad_alloc is produced by the harness' replacement of the global operator new / new[] (the k-th request inside a call throws); failures of malloc inside cfitsio / SuiteSparse / the C fitter are not injected (they do not produce C++ exceptions)",
+        "the objects the model's C machine predicts behind the handles are compared by digest with the C side after every call; the semantics of the C++ operation itself is the twin's observation (outcome and digest), the theorem C18_refines holds for every semantics inside the behaviour classes",
     ]
 
 
